@@ -1,0 +1,62 @@
+//! Verification hooks (compiled only with `--cfg rdest_verif`).
+//!
+//! Nothing in here changes the behaviour of rdest: the module re-exports private items for the
+//! conformance harness, provides a trace sink and I/O shims (in-memory network, scriptable HTTP
+//! transport) that are inert unless a harness activates them.
+
+pub mod http;
+pub mod net;
+pub mod trace;
+
+pub use crate::bcodec::bencoder::BEncoder;
+pub use crate::commands::*;
+pub use crate::connection::Connection;
+pub use crate::constants::*;
+pub use crate::extractor::Extractor;
+pub use crate::frame::Frame;
+pub use crate::messages::*;
+pub use crate::metainfo::PiecePos;
+pub use crate::peer::Peer;
+pub use crate::peer_handler::PeerHandler;
+pub use crate::serializer::Serializer;
+pub use crate::session::Status;
+pub use crate::utils::hash_to_string;
+
+/// Name of an enum variant taken from its `Debug` output (used to log reply variants).
+pub fn variant<T: std::fmt::Debug>(v: &T) -> String {
+    let s = format!("{:?}", v);
+    s.split(|c: char| c == '(' || c == '{' || c == ' ')
+        .next()
+        .unwrap_or("")
+        .to_string()
+}
+
+static RATES: std::sync::Mutex<Option<std::collections::HashMap<String, (Option<u32>, Option<u32>)>>> =
+    std::sync::Mutex::new(None);
+
+/// Harness-injected (download, upload) rates for a peer, used instead of the measured ones.
+pub fn rate_override(addr: &str) -> Option<(Option<u32>, Option<u32>)> {
+    match RATES.lock().unwrap_or_else(|e| e.into_inner()).as_ref() {
+        Some(map) => map.get(addr).cloned(),
+        None => None,
+    }
+}
+
+/// Set or clear (None) the injected rates of a peer.
+pub fn set_rate_override(addr: &str, rates: Option<(Option<u32>, Option<u32>)>) {
+    let mut guard = RATES.lock().unwrap_or_else(|e| e.into_inner());
+    let map = guard.get_or_insert_with(std::collections::HashMap::new);
+    match rates {
+        Some(r) => {
+            map.insert(addr.to_string(), r);
+        }
+        None => {
+            map.remove(addr);
+        }
+    }
+}
+
+/// Forget all injected rates.
+pub fn clear_rate_overrides() {
+    *RATES.lock().unwrap_or_else(|e| e.into_inner()) = None;
+}
